@@ -338,11 +338,28 @@ class Assign(TreeFn):
           f'Assign should have output_keys, got {self.output_keys=}'
       )
 
+  def _assign_outputs(self, outputs: Any, inputs: Any) -> tree.TreeLike[_T]:
+    """Assigns the outputs of a batch to the inputs they are paired with."""
+    # Assigning to SELF replaces the inputs, there is nothing to align with.
+    to_self = self.output_keys[0] == tree.Key.SELF
+    if self.batch_size and self._num_inputs and not to_self:
+      # The outputs are rebatched to batch_size but the inputs are not: they
+      # only belong together when the input has that very number of rows.
+      in_size = iter_utils.batch_size(self._get_inputs(inputs)[0])
+      out_size = iter_utils.batch_size(outputs[0])
+      if in_size != out_size:
+        raise ValueError(
+            f'Assign with {self.batch_size=} needs input batches of that many'
+            f' rows: mismatch of {out_size} output rows and {in_size} input'
+            ' rows.'
+        )
+    return self._get_outputs(outputs, inputs)
+
   def iterate(
       self, input_iterator: Iterable[tree.TreeLike]
   ) -> Iterator[tree.TreeLike[_T]]:
     return it.starmap(
-        self._get_outputs,
+        self._assign_outputs,
         iter_utils.processed_with_inputs(
             self._iterate, iter(input_iterator), ignore_error=self.ignore_error
         ),
